@@ -10,6 +10,7 @@ import (
 	"encoding/json"
 	"errors"
 	"fmt"
+	pkgerrors "github.com/pkg/errors"
 	"net/url"
 	"reflect"
 	"sort"
@@ -74,6 +75,9 @@ type Mode struct {
 	// the caller passed and returns a request whose session is that very object (the documented meaning of the session argument of
 	// Get*Session). The reference store ignores the argument.
 	Hydrate bool
+	// WrapErrors: like stores in the field, every error leaves the store annotated (pkg/errors WithStack): callers have to
+	// use errors.Is / errors.As, comparing with == does not work.
+	WrapErrors bool
 }
 
 // IStore wraps the reference MemoryStore.
@@ -331,6 +335,14 @@ func (s *IStore) out(r fosite.Requester) fosite.Requester {
 	return CloneRequester(r)
 }
 
+// w implements Mode.WrapErrors for an error leaving the store.
+func (s *IStore) w(err error) error {
+	if err == nil || !s.Mode.WrapErrors {
+		return err
+	}
+	return pkgerrors.WithStack(err)
+}
+
 // hydrate implements Mode.Hydrate for a request leaving the store.
 func (s *IStore) hydrate(r fosite.Requester, proto fosite.Session) fosite.Requester {
 	if !s.Mode.DB || !s.Mode.Hydrate || proto == nil || r == nil {
@@ -366,33 +378,33 @@ func (s *IStore) GetClient(ctx context.Context, id string) (fosite.Client, error
 	c, e := s.enter(ctx, "GetClient", nil, id)
 	if e != nil {
 		s.leave(c, e)
-		return nil, e
+		return nil, s.w(e)
 	}
 	r, err := s.Mem.GetClient(ctx, id)
 	s.leave(c, err)
-	return r, err
+	return r, s.w(err)
 }
 
 func (s *IStore) ClientAssertionJWTValid(ctx context.Context, jti string) error {
 	c, e := s.enter(ctx, "ClientAssertionJWTValid", nil, jti)
 	if e != nil {
 		s.leave(c, e)
-		return e
+		return s.w(e)
 	}
 	err := s.Mem.ClientAssertionJWTValid(ctx, jti)
 	s.leave(c, err)
-	return err
+	return s.w(err)
 }
 
 func (s *IStore) SetClientAssertionJWT(ctx context.Context, jti string, exp time.Time) error {
 	c, e := s.enter(ctx, "SetClientAssertionJWT", nil, jti)
 	if e != nil {
 		s.leave(c, e)
-		return e
+		return s.w(e)
 	}
 	err := s.exec(c, func(m *storage.MemoryStore) error { return m.SetClientAssertionJWT(ctx, jti, exp) })
 	s.leave(c, err)
-	return err
+	return s.w(err)
 }
 
 // ---- authorize codes ------------------------------------------------------
@@ -401,33 +413,33 @@ func (s *IStore) CreateAuthorizeCodeSession(ctx context.Context, code string, re
 	c, e := s.enter(ctx, "CreateAuthorizeCodeSession", req, code)
 	if e != nil {
 		s.leave(c, e)
-		return e
+		return s.w(e)
 	}
 	err := s.exec(c, func(m *storage.MemoryStore) error { return m.CreateAuthorizeCodeSession(ctx, code, s.in(req)) })
 	s.leave(c, err)
-	return err
+	return s.w(err)
 }
 
 func (s *IStore) GetAuthorizeCodeSession(ctx context.Context, code string, sess fosite.Session) (fosite.Requester, error) {
 	c, e := s.enter(ctx, "GetAuthorizeCodeSession", nil, code)
 	if e != nil {
 		s.leave(c, e)
-		return nil, e
+		return nil, s.w(e)
 	}
 	r, err := s.Mem.GetAuthorizeCodeSession(ctx, code, sess)
 	s.leave(c, err)
-	return s.hydrate(s.out(r), sess), err
+	return s.hydrate(s.out(r), sess), s.w(err)
 }
 
 func (s *IStore) InvalidateAuthorizeCodeSession(ctx context.Context, code string) error {
 	c, e := s.enter(ctx, "InvalidateAuthorizeCodeSession", nil, code)
 	if e != nil {
 		s.leave(c, e)
-		return e
+		return s.w(e)
 	}
 	err := s.exec(c, func(m *storage.MemoryStore) error { return m.InvalidateAuthorizeCodeSession(ctx, code) })
 	s.leave(c, err)
-	return err
+	return s.w(err)
 }
 
 // ---- PKCE -------------------------------------------------------------------
@@ -436,33 +448,33 @@ func (s *IStore) CreatePKCERequestSession(ctx context.Context, sig string, req f
 	c, e := s.enter(ctx, "CreatePKCERequestSession", req, sig)
 	if e != nil {
 		s.leave(c, e)
-		return e
+		return s.w(e)
 	}
 	err := s.exec(c, func(m *storage.MemoryStore) error { return m.CreatePKCERequestSession(ctx, sig, s.in(req)) })
 	s.leave(c, err)
-	return err
+	return s.w(err)
 }
 
 func (s *IStore) GetPKCERequestSession(ctx context.Context, sig string, sess fosite.Session) (fosite.Requester, error) {
 	c, e := s.enter(ctx, "GetPKCERequestSession", nil, sig)
 	if e != nil {
 		s.leave(c, e)
-		return nil, e
+		return nil, s.w(e)
 	}
 	r, err := s.Mem.GetPKCERequestSession(ctx, sig, sess)
 	s.leave(c, err)
-	return s.hydrate(s.out(r), sess), err
+	return s.hydrate(s.out(r), sess), s.w(err)
 }
 
 func (s *IStore) DeletePKCERequestSession(ctx context.Context, sig string) error {
 	c, e := s.enter(ctx, "DeletePKCERequestSession", nil, sig)
 	if e != nil {
 		s.leave(c, e)
-		return e
+		return s.w(e)
 	}
 	err := s.exec(c, func(m *storage.MemoryStore) error { return m.DeletePKCERequestSession(ctx, sig) })
 	s.leave(c, err)
-	return err
+	return s.w(err)
 }
 
 // ---- access tokens ----------------------------------------------------------
@@ -471,33 +483,33 @@ func (s *IStore) CreateAccessTokenSession(ctx context.Context, sig string, req f
 	c, e := s.enter(ctx, "CreateAccessTokenSession", req, sig)
 	if e != nil {
 		s.leave(c, e)
-		return e
+		return s.w(e)
 	}
 	err := s.exec(c, func(m *storage.MemoryStore) error { return m.CreateAccessTokenSession(ctx, sig, s.in(req)) })
 	s.leave(c, err)
-	return err
+	return s.w(err)
 }
 
 func (s *IStore) GetAccessTokenSession(ctx context.Context, sig string, sess fosite.Session) (fosite.Requester, error) {
 	c, e := s.enter(ctx, "GetAccessTokenSession", nil, sig)
 	if e != nil {
 		s.leave(c, e)
-		return nil, e
+		return nil, s.w(e)
 	}
 	r, err := s.Mem.GetAccessTokenSession(ctx, sig, sess)
 	s.leave(c, err)
-	return s.hydrate(s.out(r), sess), err
+	return s.hydrate(s.out(r), sess), s.w(err)
 }
 
 func (s *IStore) DeleteAccessTokenSession(ctx context.Context, sig string) error {
 	c, e := s.enter(ctx, "DeleteAccessTokenSession", nil, sig)
 	if e != nil {
 		s.leave(c, e)
-		return e
+		return s.w(e)
 	}
 	err := s.exec(c, func(m *storage.MemoryStore) error { return m.DeleteAccessTokenSession(ctx, sig) })
 	s.leave(c, err)
-	return err
+	return s.w(err)
 }
 
 // ---- refresh tokens ---------------------------------------------------------
@@ -506,11 +518,11 @@ func (s *IStore) CreateRefreshTokenSession(ctx context.Context, sig, accessSig s
 	c, e := s.enter(ctx, "CreateRefreshTokenSession", req, sig, accessSig)
 	if e != nil {
 		s.leave(c, e)
-		return e
+		return s.w(e)
 	}
 	err := s.exec(c, func(m *storage.MemoryStore) error { return m.CreateRefreshTokenSession(ctx, sig, accessSig, s.in(req)) })
 	s.leave(c, err)
-	return err
+	return s.w(err)
 }
 
 func (s *IStore) GetRefreshTokenSession(ctx context.Context, sig string, sess fosite.Session) (fosite.Requester, error) {
@@ -520,61 +532,61 @@ func (s *IStore) GetRefreshTokenSession(ctx context.Context, sig string, sess fo
 		if errors.Is(e, fosite.ErrInactiveToken) {
 			// the storage contract: ErrInactiveToken comes together with the stored request
 			if r, _ := s.Mem.GetRefreshTokenSession(ctx, sig, sess); r != nil {
-				return s.hydrate(s.out(r), sess), e
+				return s.hydrate(s.out(r), sess), s.w(e)
 			}
 		}
-		return nil, e
+		return nil, s.w(e)
 	}
 	r, err := s.Mem.GetRefreshTokenSession(ctx, sig, sess)
 	s.leave(c, err)
 	if r == nil {
-		return nil, err
+		return nil, s.w(err)
 	}
-	return s.hydrate(s.out(r), sess), err
+	return s.hydrate(s.out(r), sess), s.w(err)
 }
 
 func (s *IStore) DeleteRefreshTokenSession(ctx context.Context, sig string) error {
 	c, e := s.enter(ctx, "DeleteRefreshTokenSession", nil, sig)
 	if e != nil {
 		s.leave(c, e)
-		return e
+		return s.w(e)
 	}
 	err := s.exec(c, func(m *storage.MemoryStore) error { return m.DeleteRefreshTokenSession(ctx, sig) })
 	s.leave(c, err)
-	return err
+	return s.w(err)
 }
 
 func (s *IStore) RotateRefreshToken(ctx context.Context, requestID, sig string) error {
 	c, e := s.enter(ctx, "RotateRefreshToken", nil, requestID, sig)
 	if e != nil {
 		s.leave(c, e)
-		return e
+		return s.w(e)
 	}
 	err := s.exec(c, func(m *storage.MemoryStore) error { return m.RotateRefreshToken(ctx, requestID, sig) })
 	s.leave(c, err)
-	return err
+	return s.w(err)
 }
 
 func (s *IStore) RevokeRefreshToken(ctx context.Context, requestID string) error {
 	c, e := s.enter(ctx, "RevokeRefreshToken", nil, requestID)
 	if e != nil {
 		s.leave(c, e)
-		return e
+		return s.w(e)
 	}
 	err := s.exec(c, func(m *storage.MemoryStore) error { return m.RevokeRefreshToken(ctx, requestID) })
 	s.leave(c, err)
-	return err
+	return s.w(err)
 }
 
 func (s *IStore) RevokeAccessToken(ctx context.Context, requestID string) error {
 	c, e := s.enter(ctx, "RevokeAccessToken", nil, requestID)
 	if e != nil {
 		s.leave(c, e)
-		return e
+		return s.w(e)
 	}
 	err := s.exec(c, func(m *storage.MemoryStore) error { return m.RevokeAccessToken(ctx, requestID) })
 	s.leave(c, err)
-	return err
+	return s.w(err)
 }
 
 // ---- resource owner ---------------------------------------------------------
@@ -583,11 +595,11 @@ func (s *IStore) Authenticate(ctx context.Context, name, secret string) (string,
 	c, e := s.enter(ctx, "Authenticate", nil, name, secret)
 	if e != nil {
 		s.leave(c, e)
-		return "", e
+		return "", s.w(e)
 	}
 	sub, err := s.Mem.Authenticate(ctx, name, secret)
 	s.leave(c, err)
-	return sub, err
+	return sub, s.w(err)
 }
 
 // ---- OpenID Connect ---------------------------------------------------------
@@ -596,36 +608,36 @@ func (s *IStore) CreateOpenIDConnectSession(ctx context.Context, code string, re
 	c, e := s.enter(ctx, "CreateOpenIDConnectSession", req, code)
 	if e != nil {
 		s.leave(c, e)
-		return e
+		return s.w(e)
 	}
 	err := s.exec(c, func(m *storage.MemoryStore) error { return m.CreateOpenIDConnectSession(ctx, code, s.in(req)) })
 	s.leave(c, err)
-	return err
+	return s.w(err)
 }
 
 func (s *IStore) GetOpenIDConnectSession(ctx context.Context, code string, req fosite.Requester) (fosite.Requester, error) {
 	c, e := s.enter(ctx, "GetOpenIDConnectSession", nil, code)
 	if e != nil {
 		s.leave(c, e)
-		return nil, e
+		return nil, s.w(e)
 	}
 	r, err := s.Mem.GetOpenIDConnectSession(ctx, code, req)
 	s.leave(c, err)
 	if req != nil {
-		return s.hydrate(s.out(r), req.GetSession()), err
+		return s.hydrate(s.out(r), req.GetSession()), s.w(err)
 	}
-	return s.out(r), err
+	return s.out(r), s.w(err)
 }
 
 func (s *IStore) DeleteOpenIDConnectSession(ctx context.Context, code string) error {
 	c, e := s.enter(ctx, "DeleteOpenIDConnectSession", nil, code)
 	if e != nil {
 		s.leave(c, e)
-		return e
+		return s.w(e)
 	}
 	err := s.exec(c, func(m *storage.MemoryStore) error { return m.DeleteOpenIDConnectSession(ctx, code) })
 	s.leave(c, err)
-	return err
+	return s.w(err)
 }
 
 // ---- RFC 7523 ---------------------------------------------------------------
@@ -634,55 +646,55 @@ func (s *IStore) GetPublicKey(ctx context.Context, issuer, subject, kid string) 
 	c, e := s.enter(ctx, "GetPublicKey", nil, issuer, subject, kid)
 	if e != nil {
 		s.leave(c, e)
-		return nil, e
+		return nil, s.w(e)
 	}
 	r, err := s.Mem.GetPublicKey(ctx, issuer, subject, kid)
 	s.leave(c, err)
-	return r, err
+	return r, s.w(err)
 }
 
 func (s *IStore) GetPublicKeys(ctx context.Context, issuer, subject string) (*jose.JSONWebKeySet, error) {
 	c, e := s.enter(ctx, "GetPublicKeys", nil, issuer, subject)
 	if e != nil {
 		s.leave(c, e)
-		return nil, e
+		return nil, s.w(e)
 	}
 	r, err := s.Mem.GetPublicKeys(ctx, issuer, subject)
 	s.leave(c, err)
-	return r, err
+	return r, s.w(err)
 }
 
 func (s *IStore) GetPublicKeyScopes(ctx context.Context, issuer, subject, kid string) ([]string, error) {
 	c, e := s.enter(ctx, "GetPublicKeyScopes", nil, issuer, subject, kid)
 	if e != nil {
 		s.leave(c, e)
-		return nil, e
+		return nil, s.w(e)
 	}
 	r, err := s.Mem.GetPublicKeyScopes(ctx, issuer, subject, kid)
 	s.leave(c, err)
-	return r, err
+	return r, s.w(err)
 }
 
 func (s *IStore) IsJWTUsed(ctx context.Context, jti string) (bool, error) {
 	c, e := s.enter(ctx, "IsJWTUsed", nil, jti)
 	if e != nil {
 		s.leave(c, e)
-		return false, e
+		return false, s.w(e)
 	}
 	r, err := s.Mem.IsJWTUsed(ctx, jti)
 	s.leave(c, err)
-	return r, err
+	return r, s.w(err)
 }
 
 func (s *IStore) MarkJWTUsedForTime(ctx context.Context, jti string, exp time.Time) error {
 	c, e := s.enter(ctx, "MarkJWTUsedForTime", nil, jti)
 	if e != nil {
 		s.leave(c, e)
-		return e
+		return s.w(e)
 	}
 	err := s.exec(c, func(m *storage.MemoryStore) error { return m.MarkJWTUsedForTime(ctx, jti, exp) })
 	s.leave(c, err)
-	return err
+	return s.w(err)
 }
 
 // ---- PAR --------------------------------------------------------------------
@@ -691,39 +703,39 @@ func (s *IStore) CreatePARSession(ctx context.Context, uri string, req fosite.Au
 	c, e := s.enter(ctx, "CreatePARSession", req, uri)
 	if e != nil {
 		s.leave(c, e)
-		return e
+		return s.w(e)
 	}
 	if s.Mode.DB {
 		req = CloneRequester(req).(fosite.AuthorizeRequester)
 	}
 	err := s.exec(c, func(m *storage.MemoryStore) error { return m.CreatePARSession(ctx, uri, req) })
 	s.leave(c, err)
-	return err
+	return s.w(err)
 }
 
 func (s *IStore) GetPARSession(ctx context.Context, uri string) (fosite.AuthorizeRequester, error) {
 	c, e := s.enter(ctx, "GetPARSession", nil, uri)
 	if e != nil {
 		s.leave(c, e)
-		return nil, e
+		return nil, s.w(e)
 	}
 	r, err := s.Mem.GetPARSession(ctx, uri)
 	s.leave(c, err)
 	if err == nil && s.Mode.DB {
 		r = CloneRequester(r).(fosite.AuthorizeRequester)
 	}
-	return r, err
+	return r, s.w(err)
 }
 
 func (s *IStore) DeletePARSession(ctx context.Context, uri string) error {
 	c, e := s.enter(ctx, "DeletePARSession", nil, uri)
 	if e != nil {
 		s.leave(c, e)
-		return e
+		return s.w(e)
 	}
 	err := s.exec(c, func(m *storage.MemoryStore) error { return m.DeletePARSession(ctx, uri) })
 	s.leave(c, err)
-	return err
+	return s.w(err)
 }
 
 // ---- RFC 8628 ---------------------------------------------------------------
@@ -732,21 +744,21 @@ func (s *IStore) CreateDeviceAuthSession(ctx context.Context, devSig, userSig st
 	c, e := s.enter(ctx, "CreateDeviceAuthSession", req, devSig, userSig)
 	if e != nil {
 		s.leave(c, e)
-		return e
+		return s.w(e)
 	}
 	if s.Mode.DB {
 		req = CloneRequester(req).(fosite.DeviceRequester)
 	}
 	err := s.exec(c, func(m *storage.MemoryStore) error { return m.CreateDeviceAuthSession(ctx, devSig, userSig, req) })
 	s.leave(c, err)
-	return err
+	return s.w(err)
 }
 
 func (s *IStore) GetDeviceCodeSession(ctx context.Context, sig string, sess fosite.Session) (fosite.DeviceRequester, error) {
 	c, e := s.enter(ctx, "GetDeviceCodeSession", nil, sig)
 	if e != nil {
 		s.leave(c, e)
-		return nil, e
+		return nil, s.w(e)
 	}
 	if s.Mode.ContractDevice {
 		s.mu.Lock()
@@ -766,14 +778,14 @@ func (s *IStore) GetDeviceCodeSession(ctx context.Context, sig string, sess fosi
 		r = CloneRequester(r).(fosite.DeviceRequester)
 		r = s.hydrate(r, sess).(fosite.DeviceRequester)
 	}
-	return r, err
+	return r, s.w(err)
 }
 
 func (s *IStore) InvalidateDeviceCodeSession(ctx context.Context, sig string) error {
 	c, e := s.enter(ctx, "InvalidateDeviceCodeSession", nil, sig)
 	if e != nil {
 		s.leave(c, e)
-		return e
+		return s.w(e)
 	}
 	if s.Mode.ContractDevice {
 		if r, err := s.Mem.GetDeviceCodeSession(ctx, sig, nil); err == nil {
@@ -784,7 +796,7 @@ func (s *IStore) InvalidateDeviceCodeSession(ctx context.Context, sig string) er
 	}
 	err := s.exec(c, func(m *storage.MemoryStore) error { return m.InvalidateDeviceCodeSession(ctx, sig) })
 	s.leave(c, err)
-	return err
+	return s.w(err)
 }
 
 // ---- transactions (TxStore only) ------------------------------------------
